@@ -46,7 +46,7 @@ Theorem C01_reductions_typed : forall cx, length (cx_lc cx) = S (length (cx_src 
   forall p idx la, pst_ok cx p -> Automaton.reduce_ok (top_state p) idx = true -> ola_ok cx la ->
   match reduce cx p idx la with
   | RCont p' => pst_ok cx p' /\ same_lexer p p'
-  | RAccept p' v => has_type cx accept_type v
+  | RAccept p' v => has_type cx (lvl p') accept_type v
   | RPanic _ => False
   end.
 Proof. exact reduce_safe. Qed.
